@@ -46,13 +46,46 @@ func (n *NFA) Embed(d *DFA) int32 {
 // Determinize performs the subset construction.
 func (n *NFA) Determinize() *DFA {
 	a := n.A
+	// live[s]: an accepting state is reachable from s.  Dead states are dropped from every subset: they cannot
+	// contribute to acceptance, and keeping them makes otherwise equal subsets distinct (exponentially many).
+	live := make([]bool, len(n.Acc))
+	{
+		rev := make([][]int32, len(n.Acc))
+		for s := range n.Acc {
+			for _, t := range n.Eps[s] {
+				rev[t] = append(rev[t], int32(s))
+			}
+			for _, ts := range n.Tr[s] {
+				for _, t := range ts {
+					rev[t] = append(rev[t], int32(s))
+				}
+			}
+		}
+		var stack []int32
+		for s, acc := range n.Acc {
+			if acc {
+				live[s] = true
+				stack = append(stack, int32(s))
+			}
+		}
+		for len(stack) > 0 {
+			s := stack[len(stack)-1]
+			stack = stack[:len(stack)-1]
+			for _, p := range rev[s] {
+				if !live[p] {
+					live[p] = true
+					stack = append(stack, p)
+				}
+			}
+		}
+	}
 	closure := func(set []int32) []int32 {
 		seen := map[int32]bool{}
 		stack := append([]int32(nil), set...)
 		for len(stack) > 0 {
 			s := stack[len(stack)-1]
 			stack = stack[:len(stack)-1]
-			if seen[s] {
+			if seen[s] || !live[s] {
 				continue
 			}
 			seen[s] = true
